@@ -11,4 +11,5 @@ def run(ctx, rep):
     frontprogress.rule_frontend_progress(ctx, rep, "C10-R5", modules=("regex.parser",), floor=12)
     implicit.rule_ord_of_case_mapping(ctx, rep, "C10-R6", modules=("regex",), floor=4)
     textparse.rule_ascii_digit_scanners(ctx, rep, "C10-R7", modules=("regex.parser",))
+    regexrules.rule_positions_nonnegative(ctx, rep, "C10-R8")
     rep.undecided += ["wall-clock time per match"]
